@@ -20,3 +20,33 @@ Proof.
   intros H. pose proof (sweep16 _ leaf_C10_sweep d2 H) as S. unfold leaf_C10_ok in S. split_andb S.
   change (c_get_af2 d0 d1 d2 d3) with (c_get_af2 0 0 d2 0). lia.
 Qed.
+
+(* ---------- the AF bitmap: rdsparser_af_get / rdsparser_af_set (src/af.c), translated on every run
+   with the bitmap as a list (p->buffer[i] is nth, p->buffer[i] |= m is upd) ---------- *)
+Require Import Lemmas_Af.
+Ltac Zify.zify_post_hook ::= Z.div_mod_to_equations.
+
+Lemma quot8 v : 0 <= v < 256 -> to_u8 (Z.quot v 8) = v / 8.
+Proof. intros H. rewrite Z.quot_div_nonneg by lia. unfold to_u8. rewrite Z.mod_small; lia. Qed.
+Lemma rem8 v : 0 <= v < 256 -> to_u8 (Z.rem v 8) = v mod 8.
+Proof. intros H. rewrite Z.rem_mod_nonneg by lia. unfold to_u8. rewrite Z.mod_small; lia. Qed.
+
+Theorem leaf_af_get a v : 0 <= v < 256 -> c_af_get a v = if af_get a v then 1 else 0.
+Proof.
+  intros H. unfold c_af_get, af_get, af_ok, af_mask. cbv zeta. rewrite Z.geb_leb, (quot8 v H), (rem8 v H).
+  destruct ((1 <=? v) && (v <=? 204)); reflexivity.
+Qed.
+
+Theorem leaf_af_set a v : length a = 26%nat -> Forall (fun x => 0 <= x < 256) a -> 0 <= v < 256 ->
+  af_set a v = Some (c_af_set__buffer a v, negb (c_af_set__ret a v =? 0)).
+Proof.
+  intros Hl Hb H. unfold c_af_set__buffer, c_af_set__ret, c_af_set, af_set, af_ok, af_mask. cbv zeta.
+  rewrite Z.geb_leb, (quot8 v H), (rem8 v H).
+  destruct ((1 <=? v) && (v <=? 204)) eqn:E; [|reflexivity].
+  assert (Hi : (Z.to_nat (v / 8) < length a)%nat) by (rewrite Hl; lia).
+  destruct (nth_error a (Z.to_nat (v / 8))) as [byte|] eqn:En; [|apply nth_error_None in En; lia].
+  rewrite (nth_error_nth _ _ 0 En).
+  pose proof (nth_byte a (Z.to_nat (v / 8)) Hb) as Hn. rewrite (nth_error_nth _ _ 0 En) in Hn.
+  destruct (byte_facts byte (v mod 8) Hn ltac:(lia)) as [_ [R _]].
+  unfold to_u8. rewrite (Z.mod_small (Z.lor byte (Z.shiftr 128 (v mod 8))) 256) by exact R. reflexivity.
+Qed.
